@@ -126,3 +126,69 @@ Proof.
     + exists []. now rewrite app_nil_r.
     + destruct (nth_error (s_cache s) c) eqn:En; auto.
 Qed.
+
+(* ---------- IoInput ---------- *)
+(* the reader stands where the remembered cursor says *)
+Definition io_ok (s : ioin) : Prop := io_rpos s = Z.of_nat (io_last s).
+
+Lemma io_init_ok : io_ok io_init.
+Proof. reflexivity. Qed.
+
+(* whatever cursor is asked for next - further on, further back, the same again - the byte at that cursor is returned
+   (or the end of input), the cursor advances by one on success, and the invariant is kept *)
+Lemma io_next_spec bytes s c : io_ok s ->
+  fst (io_next bytes s c) = option_map (fun b => (b, S c)) (nth_error bytes c) /\ io_ok (snd (io_next bytes s c)).
+Proof.
+  unfold io_ok, io_next. intros H.
+  destruct (Nat.eqb c (io_last s)) eqn:E.
+  - apply Nat.eqb_eq in E. subst c. rewrite H.
+    destruct (Z.ltb_spec (Z.of_nat (io_last s)) 0) as [L|L]; [lia|]. rewrite Nat2Z.id.
+    destruct (nth_error bytes (io_last s)); cbn [fst snd io_rpos io_last option_map]; split; auto. lia.
+  - cbn [io_rpos io_last]. rewrite H.
+    replace (Z.of_nat (io_last s) + (Z.of_nat c - Z.of_nat (io_last s)))%Z with (Z.of_nat c) by lia.
+    destruct (Z.ltb_spec (Z.of_nat c) 0) as [L|L]; [lia|]. rewrite Nat2Z.id.
+    destruct (nth_error bytes c); cbn [fst snd io_rpos io_last option_map]; split; auto. lia.
+Qed.
+
+(* every history of requests is answered from the file by position *)
+Theorem io_refines bytes : forall cs s, io_ok s ->
+  io_run bytes s cs = map (fun c => option_map (fun b => (b, S c)) (nth_error bytes c)) cs.
+Proof.
+  induction cs as [|c cs IH]; intros s H; cbn [io_run map]; [reflexivity|].
+  destruct (io_next_spec bytes s c H) as (Ha & Hk). rewrite Ha, (IH _ Hk). reflexivity.
+Qed.
+
+(* ---------- Input::map: the cached end offset ---------- *)
+(* the cache of a cursor is the end of the token before it *)
+Definition mc_ok (spans : list span) (c : mcur) : Prop :=
+  mc_end c = match mc_idx c with 0 => None | S k => option_map snd (nth_error spans k) end.
+
+Lemma mc_init_ok spans : mc_ok spans mc_init.
+Proof. reflexivity. Qed.
+
+Lemma mapped_next_ok spans c c' : mc_ok spans c -> mapped_next spans c = Some c' ->
+  mc_ok spans c' /\ mc_idx c' = S (mc_idx c).
+Proof.
+  unfold mapped_next, mc_ok. intros _ H. destruct (nth_error spans (mc_idx c)) as [[s e]|] eqn:E; [|discriminate].
+  injection H as <-. cbn [mc_idx mc_end]. rewrite E. auto.
+Qed.
+
+(* every cursor the parser can hold (k tokens after the start, however it got there) has a correct cache *)
+Lemma mc_walk_ok spans : forall k c c', mc_ok spans c -> mc_walk spans k c = Some c' -> mc_ok spans c' /\ mc_idx c' = k + mc_idx c.
+Proof.
+  induction k as [|k IH]; intros c c' H W; cbn [mc_walk] in W.
+  - injection W as <-. auto.
+  - destruct (mapped_next spans c) as [c1|] eqn:E; [|discriminate].
+    destruct (mapped_next_ok _ _ _ H E) as (H1 & I1). destruct (IH _ _ H1 W) as (H2 & I2). split; auto. lia.
+Qed.
+
+(* the span the code computes from two such cursors is the span formula of the model (Inputs.spn_mapped) *)
+Theorem mapped_cursor_refines spans eoi c1 c2 : mc_ok spans c1 -> mc_ok spans c2 ->
+  mapped_span spans eoi c1 c2 = spn_mapped false spans eoi (mc_idx c1) (mc_idx c2).
+Proof.
+  unfold mapped_span, spn_mapped, mc_ok. intros _ H2.
+  destruct (nth_error spans (mc_idx c1)) as [[s1 e1]|]; [|reflexivity].
+  cbn [negb andb]. destruct (Nat.eqb (mc_idx c1) (mc_idx c2)); [reflexivity|].
+  rewrite H2. destruct (mc_idx c2) as [|k]; [reflexivity|].
+  destruct (nth_error spans k) as [[s e]|]; reflexivity.
+Qed.
